@@ -1,3 +1,4 @@
 def updated_with(self, **kwargs):
-    self._as_dictionary.update(kwargs)
-    return self.__class__(**self._as_dictionary)
+    data = self._as_dictionary
+    data.update(kwargs)
+    return self.__class__(**data)
